@@ -159,14 +159,32 @@ def make_processor(spec, ids_seed, mode, stats):
         enc_calls = [c for c in simenv.State.calls if c[1].startswith('graph_processor.py:_get_hierarchy_analyzer')]
         K = enc_calls[0][2] if enc_calls else 1
         k = 1 + int(mode['frac'] * max(0, K - 1))
-        simenv.reset(lambda idx, site: k if site.startswith('graph_processor.py:_get_hierarchy_analyzer') else None)
-        stats['kill_points_existing'] = K
-    elif kind == 'mem':
+        # the fault is transient in half of the runs (only the first analysis is cut short - whatever asks for another
+        # analysis later gets a complete one) and persistent in the others (every analysis is cut short)
+        seen = [0]
+        transient = mode['frac'] * 1000 % 2 < 1
+
         def plan(idx, site):
             if site.startswith('graph_processor.py:_get_hierarchy_analyzer'):
-                return ('raise', MemoryError)
+                seen[0] += 1
+                if seen[0] == 1 or not transient:
+                    return k
             return None
         simenv.reset(plan)
+        stats['kill_points_existing'] = K
+        stats['probe:transient_fault' if transient else 'probe:persistent_fault'] += 1
+    elif kind == 'mem':
+        seen = [0]
+        transient = mode['frac'] * 1000 % 2 < 1
+
+        def plan(idx, site):
+            if site.startswith('graph_processor.py:_get_hierarchy_analyzer'):
+                seen[0] += 1
+                if seen[0] == 1 or not transient:
+                    return ('raise', MemoryError)
+            return None
+        simenv.reset(plan)
+        stats['probe:transient_fault' if transient else 'probe:persistent_fault'] += 1
     try:
         if kind == 'memsave':
             _ = p.encoder_type
